@@ -247,6 +247,10 @@ func (g *seqGen) next() *Op {
 					if r.Chance(0.15) {
 						op.Len = 1 + r.Uint64n(9000) // targets that span several blocks
 					}
+					if r.Chance(0.03) {
+						// a long target that still fits: accepted, and READLINK returns all of it
+						op.Len = 100000 + r.Uint64n(900000)
+					}
 					if r.Chance(0.01) {
 						// a target larger than one journal transaction can hold (511 blocks): the
 						// server must refuse it cleanly and go on serving the directory
